@@ -69,6 +69,7 @@ const (
 	clJump
 	clExpect
 	clShortRestart
+	clWide
 )
 
 type evt struct {
@@ -106,13 +107,14 @@ type hist struct {
 	long     bool
 
 	// ground truth, derived from the generator only
-	have    bool
-	newest  int64 // largest extended number stored in this epoch
-	recv    map[int64]struct{}
-	named   map[int64]struct{}
-	lost    []int64 // steady family: numbers withheld in this epoch
-	recent  [64]int64
-	nrecent int
+	have     bool
+	newest   int64 // largest extended number stored in this epoch
+	recv     map[int64]struct{}
+	named    map[int64]struct{}
+	lost     []int64 // steady family: numbers withheld in this epoch
+	lostWide []bool  // parallel to lost: withheld by a cluster spanning 17..24 numbers
+	recent   [64]int64
+	nrecent  int
 
 	// statistics sampling
 	restartSince bool
@@ -121,23 +123,26 @@ type hist struct {
 	prevE        uint32
 
 	// bookkeeping
-	log        []evt
-	step       int
-	lastDist   string
-	lastDistAt int
-	late256At  int
-	shortFrom  int64 // where the previous epoch stopped, if this one began with a jump back of <= 288
-	shortLive  bool
-	shortAt    int
-	classes    uint32
-	wraps      int
-	nacks      int
-	namedCnt   int
-	lostNacked int
-	samples    int
-	failed     bool
-	buf        [48]byte
-	ts         uint32
+	log         []evt
+	step        int
+	lastDist    string
+	lastDistAt  int
+	late256At   int
+	shortFrom   int64 // where the previous epoch stopped, if this one began with a jump back of <= 288
+	shortLive   bool
+	shortAt     int
+	classes     uint32
+	wraps       int
+	nacks       int
+	namedCnt    int
+	lostNacked  int
+	samples     int
+	lossSamples int
+	wideNacked  int
+	wrapChecks  int
+	failed      bool
+	buf         [48]byte
+	ts          uint32
 }
 
 // ctx classifies, from what the generator did (never from what the cache
@@ -205,13 +210,16 @@ func (h *hist) arrive(e int64) {
 			h.shortAt = h.step
 		}
 	}
-	h.run.Eval(1)
 	h.log = append(h.log, evt{K: 'a', S: s})
 	h.ts += 3000
 	x := h.r.Uint32()
 	first, _ := h.c.Store(s, h.ts, x&15 == 0, x&48 == 0, h.buf[:12+int(x>>8)%36])
 
 	// ground truth
+	if h.have && h.newest-e == 256 { // however the generator came to pick it
+		h.late256At = h.step
+		h.classes |= clLate256
+	}
 	h.recv[e] = struct{}{}
 	if !h.have || e > h.newest {
 		if h.have && s < uint16(h.newest) {
@@ -284,16 +292,24 @@ func (h *hist) endEpoch() {
 		return
 	}
 	if h.family == famSteady {
-		for _, e := range h.lost {
+		for i, e := range h.lost {
 			if _, ok := h.named[e]; !ok {
-				h.fail("lost-never-nacked/"+h.family,
-					fmt.Sprintf("seqno %d went missing from an in-order stream (cluster span <= 16, >= %d in-order arrivals afterwards) and no NACK named it", uint16(e), 26+h.packets))
+				class, bound := "span<=16", 16
+				if h.lostWide[i] {
+					class, bound = "span17-24", 24
+				}
+				h.fail("lost-never-nacked/"+h.family+"/"+class,
+					fmt.Sprintf("seqno %d went missing from an in-order stream (cluster span <= %d, >= %d in-order arrivals afterwards) and no NACK named it", uint16(e), bound, 26+h.packets))
 				return
 			}
 			h.lostNacked++
+			if h.lostWide[i] {
+				h.wideNacked++
+			}
 		}
 	}
 	h.lost = h.lost[:0]
+	h.lostWide = h.lostWide[:0]
 }
 
 // restart begins a new epoch: the stream jumps backwards by back (> 256, <= 32768;
@@ -355,7 +371,7 @@ func (h *hist) sample(reset bool) {
 		return
 	}
 	if fraction > 0 {
-		h.run.Count("stats_samples_with_loss", 1)
+		h.lossSamples++
 	}
 	if h.havePrev && !h.restartSince && st.ESeqno < h.prevE {
 		w := "no-wrap"
@@ -367,7 +383,7 @@ func (h *hist) sample(reset bool) {
 		return
 	}
 	if h.havePrev && h.wrapSince && !h.restartSince {
-		h.run.Count("eseqno_checked_across_wrap", 1)
+		h.wrapChecks++
 	}
 	h.prevE, h.havePrev = st.ESeqno, true
 	h.restartSince, h.wrapSince = false, false
@@ -464,6 +480,9 @@ func (h *hist) length() int {
 func main() {
 	run := vk.Start("C06")
 	if rep, ok := vk.ReplayInput(); ok {
+		if sd, ok := rep["seed"].(float64); ok {
+			run.Seed = int64(sd) // histories are a function of (seed, family, index)
+		}
 		if m, ok := rep["replay"].(map[string]any); ok {
 			if hi, ok := m["history"].(float64); ok {
 				if fam, _ := m["family"].(string); fam == famSteady {
@@ -473,7 +492,9 @@ func main() {
 				}
 			}
 			if ti, ok := m["tobitmap"].(float64); ok {
-				checkToBitmap(run, uint64(ti))
+				var st tbStats
+				checkToBitmap(run, uint64(ti), &st)
+				st.book(run)
 			}
 		}
 		run.Finish("exploration", "replay of one recorded case")
@@ -502,9 +523,11 @@ func main() {
 					runHostile(run, i-uint64(nSteady))
 				default:
 					lo := (i - uint64(nSteady+nHostile)) * chunk
+					var st tbStats
 					for j := lo; j < lo+chunk && j < uint64(nLists); j++ {
-						checkToBitmap(run, j)
+						checkToBitmap(run, j, &st)
 					}
+					st.book(run)
 				}
 			}
 		}()
@@ -514,6 +537,7 @@ func main() {
 	run.FloorCounter("nacks", 5000)
 	run.FloorCounter("seqnos_named", 10000)
 	run.FloorCounter("steady_lost_nacked", 2000)
+	run.FloorCounter("steady_wide_lost_nacked", 500)
 	run.FloorCounter("stats_samples", 5000)
 	run.FloorCounter("stats_samples_with_loss", 500)
 	run.FloorCounter("histories_with_wrap", 100)
@@ -526,7 +550,7 @@ func main() {
 	run.FloorCounter("tobitmap_wrapping_lists", 500)
 	run.Assume("the harness is the receive loop: it reproduces rtpreader.go's trigger rule (delta > packets, BitmapGet(seqno-unnacked), Expect on NACK) with packets in 2..24 drawn per history; the real loop, nackWriter and sendUpRTCP are covered by the receive-loop tier of C06")
 	run.Assume("an epoch ends when the generator jumps back by 257..32768 (mod 2^16: forward by >= 32768); the ground-truth set of stored numbers and the named-once set are per epoch")
-	run.Assume("clause (4) is asserted only in the steady family (in-order, loss clusters spanning <= 16 numbers, >= 26+packets in-order arrivals after every cluster and restart); correct code legitimately drops holes that leave the 32 packet window")
+	run.Assume("clause (4) is asserted only in the steady family (in-order, loss clusters spanning <= 16 numbers and, one in ten, 17..24 numbers with their own violation key, >= 26+packets in-order arrivals after every cluster and restart); correct code legitimately drops holes that leave the 32 packet window")
 	run.Assume("histories stay far below 2^32 expected packets and 2^16 cycles, so the 32 bit counters do not wrap")
-	run.Finish("exploration", "arrival histories generated from (seed, family, index): start seqno uniform or forced near 65535/0/32767/32768, lengths 50..3000 and 1% of 70000 (two wraps), cache capacity 16..512, packets 2..24; steady = in-order + loss clusters <= 16 + duplicates of the newest + restarts, each followed by a guard of in-order arrivals; hostile = loss bursts 1..56, duplicates, late packets up to 256 (255/256 forced), forward jumps < 32768, restarts, at 3%-60% of steps; GetStats(reset true/false) and Expect(n) interleaved at random points; ToBitmap on sorted lists of 1..40 seqnos with gaps 1..40; distinct_nontrivial = distinct (family, packets, wrapped, disturbance-class set, log2 capacity, log2 length) among histories that produced at least one NACK")
+	run.Finish("exploration", "arrival histories generated from (seed, family, index): start seqno uniform or forced near 65535/0/32767/32768, lengths 50..3000 and 1% of 70000 (two wraps), cache capacity 16..512, packets 2..24; steady = in-order + loss clusters <= 16 (10% 17..24) + duplicates of the newest + restarts, each followed by a guard of in-order arrivals; hostile = loss bursts 1..56, duplicates, late packets up to 256 (255/256 forced), forward jumps < 32768, restarts, at 3%-60% of steps; GetStats(reset true/false) and Expect(n) interleaved at random points; ToBitmap on sorted lists of 1..40 seqnos with gaps 1..40; distinct_nontrivial = distinct (family, packets, wrapped, disturbance-class set, log2 capacity, log2 length) among histories that produced at least one NACK")
 }
